@@ -137,6 +137,9 @@ Example C18_nonvacuous :
   check_case (KStage (CSkipN 1) false 0 [5; 6; 7]%Z [6; 7]%Z true false) = 0 /\
   check_case (KStage (CSkipN 1) false 0 [5; 6; 7]%Z [7]%Z true false) = 2 /\
   check_case (KStage (CSkipN 1) false 0 [5; 6; 7]%Z [6]%Z true false) = 2 /\
+  check_case (KStage (CTaskN 1) false 0 [5]%Z [5]%Z true false) = 0 /\
+  check_case (KStage (CTaskN 1) false 0 [5; 6]%Z [5]%Z true false) = 2 /\     (* consumed an element after its loop had ended *)
+  check_case (KStage (CTaskN 1) false 1 [5; 6]%Z [5]%Z true false) = 0 /\     (* ... unless it may still sit in the input buffer *)
   run (fanout_step Z.eqb true 2) fanout_init
       [recv 0 1%Z; spawn 0; spawn 1; send 1 1%Z; recv_closed 0; send 0 1%Z; tau; close_out 0; close_out 1; exit 0]
     = Some {| o_pc := ODone; o_pend := [] |} /\
